@@ -8,6 +8,7 @@ after all source callbacks of the first Ok dispatch, insertion order) is Spec.Co
 -/
 import Verif.Model.Loop
 import Verif.Inv.IdleQ
+import Verif.Inv.IdleLate
 
 namespace Verif.Props.C13
 open Verif.Loop
@@ -48,5 +49,22 @@ theorem drop_handle_keeps_queue (i : Nat) (s : St) :
 theorem idle_queue_fresh (ops : List Verif.Loop.Op) :
     ((Verif.Loop.run ops).idles.map (·.2)).Nodup ∧ ∀ p ∈ (Verif.Loop.run ops).idles, p.2 < (Verif.Loop.run ops).idleSeq :=
   Verif.Inv.IdleQ.run_idle_queue_fresh ops
+
+/-- **After every history**, let the idle phase of the next dispatch run (whatever its callbacks do: insert idles, cancel,
+    insert and remove sources, fail, panic): everything queued when it ends is strictly younger than every idle the
+    phase took — an idle inserted by an idle callback runs in the following dispatch, never in the same one, and none
+    that ran is queued again. -/
+theorem idle_inserted_by_idle_waits (ops : List Verif.Loop.Op) :
+    ∀ p ∈ (Verif.Inv.after Verif.Loop.dispatchIdles (Verif.Loop.run ops)).idles,
+      ∀ r ∈ (Verif.Loop.run ops).idles, r.2 < p.2 :=
+  Verif.Inv.IdleLate.idle_inserted_by_idle_waits ops
+
+/-- non-vacuity: two idles are queued; the first one's callback inserts two more -/
+def idleInsertsIdles : List Verif.Loop.Op :=
+  [.idleScript 1 { ops := [.idle 3, .idle 1] }, .c (.idle 1), .c (.idle 2)]
+
+example : (Verif.Loop.run idleInsertsIdles).idles.length = 2 ∧
+    ((Verif.Inv.after Verif.Loop.dispatchIdles (Verif.Loop.run idleInsertsIdles)).idles.map (·.1)) = [3, 1] ∧
+    (Verif.Inv.after Verif.Loop.dispatchIdles (Verif.Loop.run idleInsertsIdles)).aborted = false := by decide +kernel
 
 end Verif.Props.C13
